@@ -252,7 +252,18 @@ impl IterConfig for StreamIterConfig {
     }
 
     fn extract_last_position(&self, commit: &CommittedEvents) -> Option<u64> {
-        commit.last_stream_version()
+        // The last event of a transaction may belong to another stream: only this stream's
+        // versions say where the scan is
+        match commit {
+            CommittedEvents::Single(event) => {
+                (event.stream_id == self.stream_id).then_some(event.stream_version)
+            }
+            CommittedEvents::Transaction { events, .. } => events
+                .iter()
+                .rev()
+                .find(|event| event.stream_id == self.stream_id)
+                .map(|event| event.stream_version),
+        }
     }
 }
 
